@@ -761,6 +761,71 @@ t_bit_level(void)
                 }
 }
 
+/* two-buffer functions: every pair of lengths 1..48 x 1..48 with distinct IVs (tail branches depend on how the two lengths
+ * relate: same block, next block, partial / full last block) */
+static void
+t_pairs(void)
+{
+        static snow3g_key_schedule_t sk;
+        static kasumi_key_sched_t k8;
+        IMB_SNOW3G_INIT_KEY_SCHED(m, KEY[0], &sk);
+        IMB_KASUMI_INIT_F8_KEY_SCHED(m, KEY[0], &k8);
+        uint8_t exp[64];
+        uint8_t *iv0 = place(RIV[0], 16), *iv1 = place(RIV[1], 16), *iv2 = place(RIV[2], 16), *iv3 = place(RIV[3], 16);
+        fill_rand(iv0, 16, 11000);
+        fill_rand(iv1, 16, 11001);
+        fill_rand(iv2, 16, 11002);
+        fill_rand(iv3, 16, 11003);
+        uint64_t k0, k1;
+        memcpy(&k0, iv0, 8);
+        memcpy(&k1, iv1, 8);
+        for (uint32_t l1 = 1; l1 <= 48; l1++)
+                for (uint32_t l2 = 1; l2 <= 48; l2++) {
+                        const uint8_t *in0 = inbuf(0, l1, 11100 + l1), *in1 = inbuf(1, l2, 11200 + l2);
+                        uint8_t *o0 = outbuf(0, l1), *o1 = outbuf(1, l2);
+                        GUARDED("kasumi-f8-2-buffer", CALLN("kasumi_f8_2_buffer", m->f8_2_buffer, A(&k8), k0, k1, A(in0), A(o0), A(l1), A(in1), A(o1), A(l2)));
+                        n_eval++;
+                        ref_kasumi_f8(KEY[0], iv0, in0, exp, (uint64_t) l1 * 8);
+                        int bad = memcmp(o0, exp, l1) != 0;
+                        ref_kasumi_f8(KEY[0], iv1, in1, exp, (uint64_t) l2 * 8);
+                        bad |= (memcmp(o1, exp, l2) != 0) << 1;
+                        if (bad || !out_canary_ok(0, l1) || !out_canary_ok(1, l2))
+                                viol("kasumi-f8-2-buffer", "output-differs", "2-buffer result differs from the reference (x = len1*100 + len2, y = which buffers)", l1 * 100 + l2, bad);
+                        o0 = outbuf(0, l1);
+                        o1 = outbuf(1, l2);
+                        GUARDED("snow3g-f8-2-buffer", CALLN("snow3g_f8_2_buffer", m->snow3g_f8_2_buffer, A(&sk), A(iv0), A(iv1), A(in0), A(o0), A(l1), A(in1), A(o1), A(l2)));
+                        n_eval++;
+                        ref_snow3g_uea2(KEY[0], iv0, in0, exp, (uint64_t) l1 * 8);
+                        bad = memcmp(o0, exp, l1) != 0;
+                        ref_snow3g_uea2(KEY[0], iv1, in1, exp, (uint64_t) l2 * 8);
+                        bad |= (memcmp(o1, exp, l2) != 0) << 1;
+                        if (bad)
+                                viol("snow3g-f8-2-buffer", "output-differs", "2-buffer result differs from the reference (x = len1*100 + len2, y = which buffers)", l1 * 100 + l2, bad);
+                        if ((l1 + l2) % 3)
+                                continue;
+                        /* 4-buffer SNOW3G with the pair in positions 1 and 3 */
+                        const uint8_t *in2 = inbuf(2, 23, 11300), *in3 = inbuf(3, l2, 11400 + l2);
+                        uint8_t *o2 = outbuf(2, 23), *o3 = outbuf(3, l2);
+                        o0 = outbuf(0, 9);
+                        o1 = outbuf(1, l1);
+                        const uint8_t *in1b = inbuf(1, l1, 11500 + l1);
+                        const uint8_t *in0b = inbuf(0, 9, 11600);
+                        GUARDED("snow3g-f8-4-buffer", CALLN("snow3g_f8_4_buffer", m->snow3g_f8_4_buffer, A(&sk), A(iv0), A(iv1), A(iv2), A(iv3), A(in0b), A(o0), 9, A(in1b), A(o1), A(l1),
+                                                            A(in2), A(o2), 23, A(in3), A(o3), A(l2)));
+                        n_eval++;
+                        ref_snow3g_uea2(KEY[0], iv1, in1b, exp, (uint64_t) l1 * 8);
+                        bad = memcmp(o1, exp, l1) != 0;
+                        ref_snow3g_uea2(KEY[0], iv3, in3, exp, (uint64_t) l2 * 8);
+                        bad |= (memcmp(o3, exp, l2) != 0) << 1;
+                        ref_snow3g_uea2(KEY[0], iv0, in0b, exp, 72);
+                        bad |= (memcmp(o0, exp, 9) != 0) << 2;
+                        ref_snow3g_uea2(KEY[0], iv2, in2, exp, 184);
+                        bad |= (memcmp(o2, exp, 23) != 0) << 3;
+                        if (bad)
+                                viol("snow3g-f8-4-buffer", "output-differs", "4-buffer result differs from the reference (x = len[1]*100 + len[3], y = which buffers)", l1 * 100 + l2, bad);
+                }
+}
+
 /* exported helpers that are not reached through the manager's table */
 static void
 t_misc(void)
@@ -1030,6 +1095,7 @@ run_variant(long v, void *arg)
                 t_hash_crc();
                 t_gcm_cfb_quic();
                 t_bit_level();
+                t_pairs();
                 t_misc();
         }
         g_place = 0;
